@@ -1,1 +1,122 @@
 import SwcVerif.Model.Resample
+import Mathlib.Algebra.Order.Field.Rat
+import Mathlib.Algebra.Order.Floor.Ring
+import Mathlib.Tactic.Linarith
+import Mathlib.Tactic.FieldSimp
+import Mathlib.Tactic.Ring
+/-! # C16 — resampling and smoothing keep the neuron's shape
+
+Theorems over ℚ about the models of `Model/Resample.lean` (tied to the code by the `c16.branch`
+correspondence, values compared with tolerance). Arc length enters as data (`lens`, the segment lengths
+`≥ 0`); `cumdist lens` are the arc-length positions of the original points. -/
+namespace C16
+open Resample
+
+/-- sorted (nondecreasing) abscissae -/
+def Mono : List Rat → Prop
+  | a :: b :: t => a ≤ b ∧ Mono (b :: t)
+  | _ => True
+
+theorem cumdist_spec (lens : List Rat) (h : ∀ l ∈ lens, 0 ≤ l) :
+    (cumdist lens).length = lens.length + 1 ∧ (cumdist lens).head? = some 0 ∧
+    (cumdist lens).getLast? = some lens.sum ∧ Mono (cumdist lens) := by
+  sorry
+
+/-! ## the new arc-length positions -/
+
+/-- **equal steps, from 0 to the branch length**: `linspace L n` has `n` entries, starts at 0, ends at `L`, and
+consecutive entries differ by exactly `L / (n - 1)` -/
+theorem linspace_spec (L : Rat) (n : Nat) (hn : 2 ≤ n) :
+    (linspace L n).length = n ∧ (linspace L n).head? = some 0 ∧ (linspace L n).getLast? = some L ∧
+    ∀ i (h : i + 1 < (linspace L n).length),
+      (linspace L n)[i + 1] - (linspace L n)[i]'(by omega) = L / ((n - 1 : Nat) : Rat) := by
+  sorry
+
+/-- **the number of nodes is ⌈L/d⌉ + 1 and the step is no longer than the spacing** -/
+theorem iso_step_le (L d : Rat) (hL : 0 < L) (hd : 0 < d) :
+    2 ≤ isoCount L d ∧ L / ((isoCount L d - 1 : Nat) : Rat) ≤ d := by
+  sorry
+
+/-- with `adjust_last_gap` (the default) the positions are `linspace`; a zero-length branch gives the single
+position 0 -/
+theorem isoPositions_adjust (L d : Rat) (hL : 0 < L) (hd : 0 < d) :
+    isoPositions L d true = linspace L (isoCount L d) := by
+  sorry
+theorem isoPositions_zero (d : Rat) (hd : 0 < d) (adj : Bool) : isoPositions 0 d adj = [0] := by
+  sorry
+
+/-- without `adjust_last_gap`: multiples of `d` below `L`, then `L` itself — again ⌈L/d⌉ + 1 positions, every
+step at most `d` -/
+theorem isoPositions_noadjust (L d : Rat) (hL : 0 < L) (hd : 0 < d) :
+    let pos := isoPositions L d false
+    pos.length = isoCount L d ∧ pos.getLast? = some L ∧
+    (∀ i (h : i + 1 < pos.length), i + 2 < pos.length → pos[i + 1] - pos[i]'(by omega) = d) ∧
+    (∀ i (h : i + 1 < pos.length), pos[i + 1] - pos[i]'(by omega) ≤ d ∧ 0 ≤ pos[i + 1] - pos[i]'(by omega)) := by
+  sorry
+
+/-! ## interpolation -/
+
+/-- **the end points are kept**: at arc length 0 and at the full length the interpolation returns the first
+and the last original value (`xp` = `cumdist lens`; at the start this needs a first segment of positive length —
+otherwise the value of the last point coinciding with the start is returned, as `np.interp` does) -/
+theorem interp_endpoints (xp fp : List Rat) (x0 f0 : Rat) (xr fr : List Rat) (hxp : xp = x0 :: xr) (hfp : fp = f0 :: fr)
+    (hl : xr.length = fr.length) (hm : Mono xp) :
+    ((∀ x1, xr.head? = some x1 → x0 < x1) → interp1 xp fp x0 = f0) ∧
+    interp1 xp fp (xp.getLastD x0) = fp.getLastD f0 := by
+  sorry
+
+/-- **every new point lies on the original polyline, in order**: for `x` inside the range, the interpolated
+value is `(1 - t)·fp[j] + t·fp[j+1]` for the segment `j` with `xp[j] ≤ x < xp[j+1]` and `t = (x - xp[j]) /
+(xp[j+1] - xp[j]) ∈ [0, 1)` — the SAME `j` and `t` for every column (coordinates and radius alike, so radii
+are linear in arc length) -/
+theorem interp_on_segment (xp : List Rat) (hm : Mono xp) (x : Rat) (hx0 : xp.head?.getD 0 ≤ x) (hx1 : x < xp.getLastD 0) :
+    ∃ j, ∃ t : Rat, j + 1 < xp.length ∧ 0 ≤ t ∧ t < 1 ∧
+      xp.getD j 0 ≤ x ∧ x < xp.getD (j + 1) 0 ∧ t = (x - xp.getD j 0) / (xp.getD (j + 1) 0 - xp.getD j 0) ∧
+      ∀ fp : List Rat, fp.length = xp.length →
+        interp1 xp fp x = (1 - t) * fp.getD j 0 + t * fp.getD (j + 1) 0 := by
+  sorry
+
+/-- a convex combination of two points is no farther from either than they are from each other: the
+chord between two samples on one segment is a sub-segment, so resampling never lengthens a straight piece -/
+theorem convex_between (a b t : Rat) (h0 : 0 ≤ t) (h1 : t ≤ 1) (hab : a ≤ b) :
+    a ≤ (1 - t) * a + t * b ∧ (1 - t) * a + t * b ≤ b := by
+  sorry
+
+/-- the resamplers apply this interpolation column by column -/
+theorem isoResample_columns (lens : List Rat) (cols : List (List Rat)) (d : Rat) (adj : Bool) :
+    isoResample lens cols d adj =
+      cols.map (interp (isoPositions ((cumdist lens).getLastD 0) d adj) (cumdist lens)) := by
+  sorry
+theorem linearResample_columns (lens : List Rat) (cols : List (List Rat)) (n : Nat) :
+    linearResample lens cols n = cols.map (interp (linspace ((cumdist lens).getLastD 0) n) (cumdist lens)) ∧
+    ∀ c ∈ linearResample lens cols n, c.length = n := by
+  sorry
+
+/-! ## smoothing -/
+
+/-- **smoothing keeps the end points and the node count** (radii and connectivity are not touched by the code
+at all: only `x`, `y`, `z` are assigned, and only at positions `1..n-2`) -/
+theorem smooth_endpoints_count (v : List Rat) (k : Nat) :
+    (convSmooth v k).length = v.length ∧
+    (convSmooth v k).head? = v.head? ∧ (convSmooth v k).getLast? = v.getLast? := by
+  sorry
+
+/-! ## re-assembly -/
+
+/-- **no interior sample is lost**: between the parent end point and the child, the assembled branch keeps every
+sample except a first one that coincides with the parent end and a last one that coincides with the child
+(which is appended by the caller) -/
+theorem assemble_keeps_interior {α : Type} (first last : α) (mid : List α) :
+    assembleBranch (first :: mid ++ [last]) true true = mid ∧
+    assembleBranch (first :: mid ++ [last]) false true = first :: mid ∧
+    assembleBranch (first :: mid ++ [last]) true false = mid ++ [last] ∧
+    assembleBranch (first :: mid ++ [last]) false false = first :: mid ++ [last] := by
+  sorry
+
+-- non-vacuity / concrete behaviour
+example : isoPositions 2 (2/5) true = [0, 2/5, 4/5, 6/5, 8/5, 2] := by decide +kernel
+example : isoPositions 2 (3/4) false = [0, 3/4, 3/2, 2] := by decide +kernel
+example : interp [0, 1/2, 1, 3] [0, 1, 1, 3] [5, 6, 7, 9] = [5, 11/2, 7, 9] := by decide +kernel
+example : convSmooth [0, 3, 0, 3, 0] 3 = [0, 1, 2, 1, 0] := by decide +kernel
+
+end C16
